@@ -34,7 +34,7 @@ def run(tier, seed, replay=None):
             ck.mc(DIR, "ColGen", "MC_cg_7_SZ23_3.cfg", timeout=14400)
             ck.mc(DIR, "ColGen", "MC_cg_10_SZ234_3.cfg", timeout=14400)
         n = 400 if tier == "quick" else 6000
-        cases = [drv.gen_stock(rng) for _ in range(n)] + [drv.gen_custom(rng) for _ in range(n // 2)]
+        cases = [drv.gen_stock(rng) for _ in range(n)] + [drv.gen_custom(rng) for _ in range(n // 2)] + drv.degenerate_reentry_corpus(rng)
     res = run_tasks("cutstock", "run_cut", cases, timeout=120)
     # call histories on one list object (edited in place between two solves)
     hist = []
